@@ -162,3 +162,12 @@ Fixpoint answers_with (m : method) (a : kind -> resp) (g : prog) : Prop :=
   | Ret _ => True
   | Call m' h k => (m' = m -> forall kd, h kd = Ret (a kd)) /\ answers_with m a k
   end.
+
+(* two programs make the same storage calls and react alike to every failure; only the
+   answer of the fault-free path may differ *)
+Fixpoint same_handlers (g1 g2 : prog) : Prop :=
+  match g1, g2 with
+  | Ret _, Ret _ => True
+  | Call m1 h1 k1, Call m2 h2 k2 => m1 = m2 /\ (forall kd, h1 kd = h2 kd) /\ same_handlers k1 k2
+  | _, _ => False
+  end.
